@@ -20,7 +20,7 @@ NCPU = os.cpu_count() or 8
 
 CLUSTER = ["C01", "C02", "C03", "C05", "C06", "C07", "C08", "C09", "C13", "C14"]
 ENGINES = {p: "cluster_engine" for p in CLUSTER}
-ENGINES.update({"C20": "auth_engine", "C19": "stream_engine", "C17": "autoalloc_engine", "C18": "autoalloc_engine"})
+ENGINES.update({"C20": "auth_engine", "C19": "stream_engine", "C17": "autoalloc_engine", "C18": "autoalloc_engine", "C15": "sched_engine"})
 ENGINES.update({"C04": "alloc_engine", "C16": "alloc_engine"})
 ENGINES.update({"C10": "journal_engine", "C11": "journal_engine", "C12": "journal_engine"})
 
